@@ -80,17 +80,46 @@ class RecordingBackend(AbstractLoggingBackend):
 
 
 _LOGCB = None
+_TWINS: dict = {}
 
 
 def logging_callback(an: int):
     """The one real LoggingCallback used by all recorded runs (its static parts must not change between runs,
-    or every run would recompile); alpha = an/4 is an array leaf."""
+    or every run would recompile); alpha = an/4 is an array leaf.  It fans out to TWO recording backends (the
+    constructor documents a sequence of backends): the first is the one the traces are read from, the second must
+    have received exactly the same records (record_summary)."""
     global _LOGCB
     if _LOGCB is None:
-        be = RecordingBackend()
-        _LOGCB = (LoggingCallback(be, name="lvf"), be)
+        be, be2 = RecordingBackend(), RecordingBackend()
+        _TWINS[id(be)] = [be2]
+        _LOGCB = (LoggingCallback([be, be2], name="lvf"), be)
     cb, be = _LOGCB
     return eqx.tree_at(lambda c: c.alpha, cb, jnp.asarray(an / 4.0, dtype=jnp.float32)), be
+
+
+def clear_records(backend) -> None:
+    for b in [backend] + _TWINS.get(id(backend), []):
+        del b.records[:]
+
+
+def record_summary(backend, N: int):
+    """what reached the backends so far: the last scalar record of the first backend, and the same projection for
+    every other backend of the callback (`others`)"""
+    def summ(be):
+        recs = [r for r in be.records if r[0] == "scalars"]
+        if not recs:
+            return None
+        return {"n_records": len(recs), "step": recs[-1][2],
+                "retN": int(round(recs[-1][1]["episode/return"] * N * SD)),
+                "lenN": int(round(recs[-1][1]["episode/length"] * N * SD))}
+    main = summ(backend)
+    others = [summ(t) for t in _TWINS.get(id(backend), [])]
+    if main is None:
+        if all(o is None for o in others):
+            return None
+        main = {"n_records": 0, "step": -1, "retN": 0, "lenN": 0}
+    main["others"] = [[o["n_records"], o["step"], o["retN"], o["lenN"]] if o else [0, -1, 0, 0] for o in others]
+    return main
 
 
 SD = 65536
@@ -192,7 +221,7 @@ def record_onpolicy(cache: tb.EnvCache, cfg: dict, algo_name: str, N: int, iters
     state = _reset(algo, env, policy, k0, cb)
     traces = []
     jax.effects_barrier()
-    del backend.records[:]
+    clear_records(backend)
     done_count = [0] * N
     D = 2 ** (2 * T - 1)
     for it, k in enumerate(jr.split(k1, iters)):
@@ -201,7 +230,6 @@ def record_onpolicy(cache: tb.EnvCache, cfg: dict, algo_name: str, N: int, iters
         buf = jax.device_get(state.callback_state.states[0].log["buffer"])
         after = jax.device_get(state.step_state)
         jax.effects_barrier()
-        recs = [r for r in backend.records if r[0] == "scalars"]
         for e in range(N):
             sel = (lambda x: x[e]) if N > 1 else (lambda x: x)
             b = jax.tree.map(sel, buf)
@@ -223,9 +251,7 @@ def record_onpolicy(cache: tb.EnvCache, cfg: dict, algo_name: str, N: int, iters
             traces.append({"cfg": cfg, "init": init, "rows": rows, "final": fin,
                            "meta": {"algo": algo_name, "N": N, "env": e, "iter": it, "dones_so_far": done_count[e],
                                     "cb_steps": int(s1.callback_state.states[0].n),
-                                    "record": ({"n_records": len(recs), "step": recs[-1][2],
-                                                "retN": int(round(recs[-1][1]["episode/return"] * N * SD)),
-                                                "lenN": int(round(recs[-1][1]["episode/length"] * N * SD))} if recs else None)}})
+                                    "record": record_summary(backend, N)}})
     return traces
 
 
@@ -237,7 +263,7 @@ def record_from_state(cfg: dict, env, algo, state, cb, backend, seed: int) -> li
     T = cfg["H"]
     D = 2 ** (2 * T - 1)
     before = jax.device_get(state.step_state)
-    del backend.records[:]
+    clear_records(backend)
     new = _iteration(algo, state, jr.key(seed), cb)
     b = jax.device_get(new.callback_state.states[0].log["buffer"])
     after = jax.device_get(new.step_state)
